@@ -663,10 +663,28 @@ pub fn body_len(f: &Frame) -> usize {
 /// legal non-canonical spellings of the same packet (C11 / C04): short forms spelled out
 pub fn spellings(f: &Frame) -> Vec<(String, Vec<u8>)> {
     let mut out = Vec::new();
+    let t = f.ctl >> 4;
+    // pinned leniencies that the library's own encoder may never produce: DUP = 1 with QoS 0 (L5),
+    // Will-Retain without Will-Flag (L1)
+    if t == 3 && f.ctl & 0x06 == 0 {
+        let mut g = f.clone();
+        g.ctl |= 0x08;
+        out.push(("DUP with QoS 0".to_string(), g.bytes()));
+    }
+    if t == 1 {
+        for i in 0..f.body.len() {
+            if let Seg::Leaf { label, kind: Kind::Flags, bytes } = &f.body[i] {
+                if bytes[0] & 0x04 == 0 {
+                    let mut g = f.clone();
+                    g.body[i] = Seg::Leaf { label: label.clone(), kind: Kind::Flags, bytes: vec![bytes[0] | 0x20] };
+                    out.push(("Will-Retain without Will-Flag".to_string(), g.bytes()));
+                }
+            }
+        }
+    }
     if f.fam != "v5" {
         return out;
     }
-    let t = f.ctl >> 4;
     let leaf = |label: &str, kind: Kind, b: Vec<u8>| Seg::Leaf { label: label.into(), kind, bytes: b };
     let empty_props = |set: &str| Seg::Props { set: set.into(), items: vec![], len_override: None };
     if (4..=7).contains(&t) && f.body.len() == 1 {
